@@ -98,7 +98,7 @@ def detect(d, checks=None):
                 except Exception:  # noqa: BLE001
                     pass
             return pid, rc, ("no-failing-input-found" in vio[0]) if vio else False, ident, out.splitlines()[-1][:160] if out else ""
-        with ThreadPoolExecutor(max_workers=4) as ex:
+        with ThreadPoolExecutor(max_workers=int(os.environ.get("SEED_WORKERS", "4"))) as ex:
             rs = list(ex.map(one, ids))
         shutil.rmtree(logdir, ignore_errors=True)
         return {"dir": d, "results": {pid: {"rc": rc, "no_input": ni, "identities": ident, "last": last} for pid, rc, ni, ident, last in rs}}
